@@ -1,6 +1,7 @@
 package main
 
 import (
+	"go/constant"
 	"go/token"
 	"go/types"
 	"strings"
@@ -43,7 +44,10 @@ func cacheCore(w *World, r *Report, la *LockAn, full bool) {
 	}
 	isFound := func(v ssa.Value) bool { return Path(v) == "param:cache.cache[param:key]#1" }
 	fromLookup := func(v ssa.Value) bool {
-		return Derives(v, func(x ssa.Value) bool { l, ok := x.(*ssa.Lookup); return ok && Path(l.X) == "param:cache.cache" && Path(l.Index) == "param:key" })
+		return Derives(v, func(x ssa.Value) bool {
+			l, ok := x.(*ssa.Lookup)
+			return ok && Path(l.X) == "param:cache.cache" && Path(l.Index) == "param:key"
+		})
 	}
 	isExp := func(v ssa.Value) bool {
 		c, ok := peel(v).(*ssa.Call)
@@ -187,7 +191,48 @@ func cacheCore(w *World, r *Report, la *LockAn, full bool) {
 				}
 			}
 		}
-		r.Check(okAcc, "R5", "cache.Set/size-accounted-on-every-insert", set.Pos(), "currentCacheSize += itemSize accompanies every insertion (conditioned only on calculateCacheSize)")
+		var item ssa.Value
+		if okAcc {
+			item = st[0].Val.(*ssa.BinOp).Y
+			// accounted exactly when sizes are calculated (positive polarity)
+			for _, c := range CondsOf(st[0].Block()) {
+				if strings.HasSuffix(Path(c.V), "calculateCacheSize") && !c.Pol {
+					okAcc = false
+				}
+			}
+		}
+		r.Check(okAcc, "R5", "cache.Set/size-accounted-on-every-insert", set.Pos(), "currentCacheSize += itemSize accompanies every insertion (conditioned only on calculateCacheSize being set)")
+		// the accounted size is the entry's own size whenever sizes are calculated, and the
+		// same value decides the locked admission check
+		okItem, okSame := false, item != nil
+		if phi, ok := peel(item).(*ssa.Phi); ok && len(phi.Edges) == 2 {
+			var call *ssa.Call
+			zero := false
+			for _, e := range phi.Edges {
+				if c, ok := e.(*ssa.Const); ok && c.Value != nil && constant.Sign(c.Value) == 0 {
+					zero = true
+				}
+				if c, ok := e.(*ssa.Call); ok {
+					call = c
+				}
+			}
+			if call != nil && zero && len(call.Call.Args) == 2 {
+				okItem = Path(call.Call.Value) == "param:cache.calculateSizeFunc" && Path(call.Call.Args[0]) == "param:key" && Path(call.Call.Args[1]) == "param:value" &&
+					condsHave(expandConds(CondsOf(call.Block())), true, func(v ssa.Value) bool { return Path(v) == "param:cache.calculateCacheSize" }) &&
+					!condsHave(expandConds(CondsOf(call.Block())), false, func(v ssa.Value) bool { return Path(v) == "param:cache.calculateCacheSize" })
+			}
+		} else if call, ok := peel(item).(*ssa.Call); ok && len(call.Call.Args) == 2 {
+			okItem = Path(call.Call.Value) == "param:cache.calculateSizeFunc" && Path(call.Call.Args[0]) == "param:key" && Path(call.Call.Args[1]) == "param:value"
+		}
+		Instrs(set, func(in ssa.Instruction) {
+			if b, ok := in.(*ssa.BinOp); ok && isSum(b) {
+				if m, h := la.HeldAt(b)["param:cache.mutex"]; h && m == 'W' && b.Y != item {
+					okSame = false
+				}
+			}
+		})
+		r.Check(okItem && okSame, "R5", "cache.Set/item-size-is-the-entry-size", set.Pos(),
+			"the size added to currentCacheSize is calculateSizeFunc(key, value) whenever calculateCacheSize is set (0 otherwise)=%v, and the same value is used by the check under the lock=%v", okItem, okSame)
 		// error return
 		for _, alt := range ReturnAlts(set, 0) {
 			if isNilConst(alt.Val) {
@@ -215,6 +260,14 @@ func cacheCore(w *World, r *Report, la *LockAn, full bool) {
 		if okSub {
 			b, ok := sub[0].Val.(*ssa.BinOp)
 			okSub = ok && b.Op == token.SUB && condsHave(CondsOf(sub[0].Block()), true, func(v ssa.Value) bool { return Path(v) == "param:cache.cache[param:key]#1" })
+			// un-accounted exactly when sizes are calculated, by the stored entry's own size
+			cs := CondsOf(sub[0].Block())
+			okSub = okSub && condsHave(cs, true, func(v ssa.Value) bool { return Path(v) == "param:cache.calculateCacheSize" }) && len(cs) == 2
+			if okSub {
+				c, isCall := peel(b.Y).(*ssa.Call)
+				okSub = isCall && len(c.Call.Args) == 2 && Path(c.Call.Value) == "param:cache.calculateSizeFunc" && Path(c.Call.Args[0]) == "param:key" &&
+					Derives(c.Call.Args[1], func(x ssa.Value) bool { return Path(x) == "param:cache.cache[param:key]#0" }) && Path(b.X) == "param:cache.currentCacheSize"
+			}
 		}
 		r.Check(okDel && okSub, "R5", "clearKey/delete-and-unaccount", ck.Pos(), "clearKey deletes the key unconditionally under the lock=%v and subtracts its size when present=%v", okDel, okSub)
 		checkGB(w, r, la, "R5", []GuardRow{{Pkg: pkgUtils, Struct: "MemoryCache", Fields: []string{"cache", "currentCacheSize"}, Mutex: "mutex", MinSites: 12,
@@ -225,6 +278,7 @@ func cacheCore(w *World, r *Report, la *LockAn, full bool) {
 func runC12(w *World, r *Report) {
 	la := NewLockAn(w)
 	cacheCore(w, r, la, true)
+	c12Extra(w, r)
 
 	// R3 key agreement
 	sameKey := func(rule, name string, reqFn, respFn *ssa.Function, cacheField string, reqVar, respVar string) (ssa.Value, ssa.Value) {
@@ -323,7 +377,9 @@ func runC12(w *World, r *Report) {
 			rel := condsHave(cs, true, func(v ssa.Value) bool {
 				return isCallTo0(v, "slices.Contains") && strings.Contains(Path(v), "RelevantStatuses") && strings.HasSuffix(Path(v), "onResponse.Status)")
 			})
-			op, _ := FindRel(relsOfConds(cs), func(v ssa.Value) bool { return strings.HasPrefix(Path(v), "remedies.readRetryAfter(") && strings.HasSuffix(Path(v), "#1") }, isNilConst)
+			op, _ := FindRel(relsOfConds(cs), func(v ssa.Value) bool {
+				return strings.HasPrefix(Path(v), "remedies.readRetryAfter(") && strings.HasSuffix(Path(v), "#1")
+			}, isNilConst)
 			okTTL := strings.HasPrefix(ttl, "remedies.readRetryAfter(local:onResponse.Headers") && strings.HasSuffix(ttl, "#0")
 			ok = ok && rel && op == "==" && okTTL
 			detail = "relevant status=" + boolS(rel) + " retry-after err " + op + " nil ttl=" + trunc(ttl, 70)
@@ -350,7 +406,10 @@ func runC12(w *World, r *Report) {
 			continue
 		}
 		g := gets[0].Value()
-		isHit := func(v ssa.Value) bool { e, ok := v.(*ssa.Extract); return ok && e.Tuple == ssa.Value(g) && e.Index == 1 }
+		isHit := func(v ssa.Value) bool {
+			e, ok := v.(*ssa.Extract)
+			return ok && e.Tuple == ssa.Value(g) && e.Index == 1
+		}
 		nEarly := 0
 		for _, alt := range ReturnAlts(p.fn, 0) {
 			a, isAlloc := peel(alt.Val).(*ssa.Alloc)
@@ -368,7 +427,9 @@ func runC12(w *World, r *Report) {
 				if p.thr {
 					hv := litField(a, "Headers")
 					okH = hv != nil && strings.HasPrefix(Path(hv), "remedies.getUpdatedHeaders(") && strings.HasSuffix(Path(hv), "#0")
-					op, _ := FindRel(relsOfConds(alt.Conds), func(v ssa.Value) bool { return strings.HasPrefix(Path(v), "remedies.getUpdatedHeaders(") && strings.HasSuffix(Path(v), "#1") }, isNilConst)
+					op, _ := FindRel(relsOfConds(alt.Conds), func(v ssa.Value) bool {
+						return strings.HasPrefix(Path(v), "remedies.getUpdatedHeaders(") && strings.HasSuffix(Path(v), "#1")
+					}, isNilConst)
 					okH = okH && op == "=="
 				}
 				r.Check(condsHave(alt.Conds, true, isHit) && fromCache("Status") && fromCache("Body") && okH, "R6", p.name+"/replay-only-on-hit", posOf(alt.Ret),
@@ -403,7 +464,9 @@ func runC12(w *World, r *Report) {
 				return
 			}
 			isRA := func(pol bool) bool {
-				op, _ := FindRel(Rels(mu.Block()), func(v ssa.Value) bool { return strings.HasPrefix(Path(v), "next(range(") && strings.HasSuffix(Path(v), "#1") }, pathRe(`^param:remedyConfig\.RetryAfterHeader$`))
+				op, _ := FindRel(Rels(mu.Block()), func(v ssa.Value) bool {
+					return strings.HasPrefix(Path(v), "next(range(") && strings.HasSuffix(Path(v), "#1")
+				}, pathRe(`^param:remedyConfig\.RetryAfterHeader$`))
 				return (op == "==") == pol && op != ""
 			}
 			p := Path(mu.Value)
@@ -418,12 +481,39 @@ func runC12(w *World, r *Report) {
 				r.Check(isRA(false) && strings.HasPrefix(p, "next(range(") && strings.HasSuffix(p, "#2"), "R6", "getUpdatedHeaders/other-headers-copied", posOf(mu), "other headers are copied verbatim")
 			}
 		})
+		// every stored header reaches the replayed response: the copy loop only ends at exhaustion
+		var hdr *ssa.BasicBlock
+		Instrs(gh, func(in ssa.Instruction) {
+			if n, ok := in.(*ssa.Next); ok && strings.HasPrefix(Path(n.Iter), "range(local:cachedResponse.Headers") {
+				hdr = n.Block()
+			}
+		})
+		if hdr == nil {
+			r.Undec("R6", "getUpdatedHeaders/copy-loop", gh.Pos(), "range over the stored headers not found")
+		} else {
+			ex := loopExits(hdr, false)
+			r.Check(len(ex) == 0, "R6", "getUpdatedHeaders/copy-loop-runs-to-exhaustion", hdr.Instrs[0].Pos(), "the loop over the stored headers has no exit other than exhaustion (extra exits: %v)", ex)
+		}
 		if nUpd != 1 {
 			r.Undec("R6", "getUpdatedHeaders/update-site", gh.Pos(), "expected one retry-after update, found %d", nUpd)
 		}
+		errOf := func(callee string) VP {
+			return func(v ssa.Value) bool {
+				return strings.HasPrefix(Path(v), "remedies."+callee+"(") && strings.HasSuffix(Path(v), "#1")
+			}
+		}
 		for _, alt := range ReturnAlts(gh, 0) {
+			rels := relsOfConds(alt.Conds)
+			op1, _ := FindRel(rels, errOf("readRetryAfter"), isNilConst)
+			op2, _ := FindRel(rels, errOf("calcNewRetryAfter"), isNilConst)
 			if isNilConst(peel(alt.Val)) {
+				r.Check(op1 == "!=" || (op1 == "==" && op2 == "!="), "R6", "getUpdatedHeaders/nil-only-on-error", posOf(alt.Ret),
+					"no headers are returned only when reading (%q nil) or recomputing (%q nil) the retry-after value failed", op1, op2)
 				continue
+			}
+			if mm != nil && alt.Val == ssa.Value(mm) {
+				r.Check(op1 == "==" && op2 == "==", "R6", "getUpdatedHeaders/fresh-map-on-success", posOf(alt.Ret),
+					"the updated headers are returned when both readRetryAfter (err %q nil) and calcNewRetryAfter (err %q nil) succeeded", op1, op2)
 			}
 			ok := mm != nil && alt.Val == ssa.Value(mm) || Path(alt.Val) == "local:cachedResponse.Headers" && condsHave(alt.Conds, true, func(v ssa.Value) bool { return strings.Contains(Path(v), "RetryAfterType != ") })
 			r.Check(ok, "R6", "getUpdatedHeaders/returns", posOf(alt.Ret), "returns the fresh map (or the stored headers when the retry-after type is not relative): %s", trunc(Path(alt.Val), 60))
@@ -487,4 +577,73 @@ func samePathLit(a, b ssa.Value) bool {
 		}
 	}
 	return true
+}
+
+// c12Extra: the caching plugin bounds its cache before every store, and the
+// hashed part of the key is made of exactly the configured path parameters
+// that are present.
+func c12Extra(w *World, r *Report) {
+	on := w.Fn(pkgRemedies, "CachingPlugin.OnResponse")
+	if on == nil {
+		r.Undec("R5", "CachingPlugin.OnResponse", token.NoPos, "function not found")
+	} else {
+		sets := CallsIn(on, false, "utils.Cache).Set", "MemoryCache).Set")
+		wm := CallsIn(on, false, "utils.Cache).WithMaxCacheSize", "MemoryCache).WithMaxCacheSize")
+		ok := len(sets) >= 1 && len(wm) >= 1
+		for _, s := range sets {
+			dom := false
+			for _, c := range wm {
+				a := margs(c)
+				if domInstr(c, s) && len(a) == 2 &&
+					Derives(a[1], func(x ssa.Value) bool { return strings.HasSuffix(Path(x), "remedyConfig.MaxCacheSizeMegabytes") }) &&
+					strings.HasSuffix(Path(a[0]), "remedies.calculateSize") {
+					dom = true
+				}
+			}
+			ok = ok && dom
+		}
+		pos := on.Pos()
+		if len(sets) > 0 {
+			pos = posOf(sets[0])
+		}
+		r.Check(ok, "R5", "CachingPlugin.OnResponse/bound-configured-before-store", pos,
+			"every responseCache.Set is dominated by WithMaxCacheSize(calculateSize, remedyConfig.MaxCacheSizeMegabytes): the store is bounded by the configured size")
+	}
+	ex := w.Fn(pkgRemedies, "extractHashedPathParams")
+	if ex == nil {
+		r.Undec("R3", "extractHashedPathParams", token.NoPos, "function not found")
+		return
+	}
+	var apps []*ssa.Call
+	Instrs(ex, func(in ssa.Instruction) {
+		if c, ok := in.(*ssa.Call); ok {
+			if b, ok := c.Call.Value.(*ssa.Builtin); ok && b.Name() == "append" {
+				apps = append(apps, c)
+			}
+		}
+	})
+	isLookup := func(v ssa.Value) bool {
+		l, ok := peel(v).(*ssa.Lookup)
+		return ok && Path(l.X) == "param:pathParams" && strings.HasSuffix(Path(l.Index), ".Path")
+	}
+	isPath := func(v ssa.Value) bool { return strings.HasSuffix(Path(v), ".Path") && !isLookup(v) }
+	ok := len(apps) == 1
+	if ok {
+		a := apps[0]
+		el := a.Call.Args[1]
+		rels := Rels(a.Block())
+		opT, _ := FindRel(rels, func(v ssa.Value) bool { return strings.HasSuffix(Path(v), ".PayloadType") },
+			func(v ssa.Value) bool { return strings.Contains(Path(v), "(config.Payload).String(") })
+		opV, _ := FindRel(rels, isLookup, func(v ssa.Value) bool { s, isS := constString(v); return isS && s == "" })
+		ok = Derives(el, isLookup) && Derives(el, isPath) && opT == "==" && opV == "!="
+		// the hash covers the collected values
+		for _, alt := range ReturnAlts(ex, 0) {
+			ok = ok && Derives(alt.Val, func(x ssa.Value) bool { return isCallTo0(x, "crypto/sha256.Sum256") }) &&
+				Derives(alt.Val, func(x ssa.Value) bool { return x == ssa.Value(a) })
+		}
+		r.Check(ok, "R3", "extractHashedPathParams/selected-present-path-params", posOf(a),
+			"the hashed key part collects path:value for each configured path-parameter entry (payload type == path params %q) that is present (value %q \"\"), and the returned digest derives from the collected list", opT, opV)
+	} else {
+		r.Undec("R3", "extractHashedPathParams/append", ex.Pos(), "expected one append site, found %d", len(apps))
+	}
 }
